@@ -28,11 +28,27 @@ structure Laws {K : Type} (D : DArith K) : Prop where
   two_ne_zero : D.two ≠ D.zero
   mul_ne_zero : ∀ x y, x ≠ D.zero → y ≠ D.zero → D.mul x y ≠ D.zero
 
+/-- the analogue of `C10.Arith.assoc` for the comparisons, `if` and `else`: the operator
+    `find_bin_op` returns for such a name, if there is one and it is flagged commutative, is
+    associative (`operate_bin` builds a group with that operator, and `compile` may re-associate
+    flagged operators).  Trivially true when the table does not flag these operators
+    (`bopAssoc_of_unflagged`), and a consequence of `C01.FlaggedAssoc`. -/
+def BopAssoc {K : Type} (I : Interp K) (t : Table) : Prop :=
+  ∀ n ∈ [">", "<", ">=", "<=", "==", "!=", "if", "else"], ∀ o, findBinOp t (String.toList n) = .ok o →
+    o.comm = true → ∀ x y z, I.bin o.idx (I.bin o.idx x y) z = I.bin o.idx x (I.bin o.idx y z)
+
+theorem bopAssoc_of_unflagged {K : Type} (I : Interp K) (t : Table)
+    (h : ∀ n ∈ [">", "<", ">=", "<=", "==", "!=", "if", "else"], ∀ o,
+      findBinOp t (String.toList n) = .ok o → o.comm = false) : BopAssoc I t := by
+  intro n hn o ho hc
+  rw [h n hn o ho] at hc
+  cases hc
+
 mutual
 /-- every operator of the expression has a derivative rule in the reference table -/
 def Ruled {K : Type} (t : Table) : DeepEx K → Prop
   | .mk nodes ops un _ =>
-    (∀ o ∈ ops, String.ofList (reprOf t o.idx) ∈ ["+", "-", "*", "/", "^"]) ∧
+    (∀ o ∈ ops, String.ofList (reprOf t o.idx) ∈ binRuleNames) ∧
     (∀ u ∈ un, String.ofList (reprOf t u) ∈ unRuleNames) ∧ ruledList t nodes
 def ruledList {K : Type} (t : Table) : List (DeepNode K) → Prop
   | [] => True
